@@ -403,12 +403,79 @@ CASES4 = [
 ]
 
 
+# the cases of ssa2lean6 (targets generated into Generated/Ssa6, ties in LowProofs/Tie6): reflect as a value tree, direct recursion
+SZ = ("size.sizeof", "size/sizeof.go", "func sizeof(")
+OF = ("size.Of", "size/sizeof.go", "func Of(")
+PKG = ("size.sizeof", "size/sizeof.go", "package size")
+MAPLOOP = "\t\t\ts := sizeof(iter.Key())\n\t\t\tsum += s\n\t\t\ts = sizeof(iter.Value())\n\t\t\tsum += s\n"
+CASES6 = [
+    # ---- semantic mutations: the tie must break -------------------------------------------------------------
+    ("sizeof: reflect.Uint dropped from the scalar case (the defect of 724bb48)", "break") + SZ + ("reflect.Int, reflect.Uint, reflect.Uintptr:", "reflect.Int, reflect.Uintptr:"),
+    ("sizeof: reflect.Complex128 dropped from the scalar case", "break") + SZ + ("reflect.Complex64, reflect.Complex128,", "reflect.Complex64,"),
+    ("sizeof: reflect.Bool case dropped", "break") + SZ + ("\tcase reflect.Bool:\n\t\tsum = int(v.Type().Size())\n", ""),
+    ("sizeof: the string case adds stringsize twice", "break") + SZ + ("\t\tsum += stringsize\n", "\t\tsum += stringsize\n\t\tsum += stringsize\n"),
+    ("sizeof: pointer: the nil test inverted (the pointee is never counted / Elem of nil)", "break") + SZ + ("if p == nil {", "if p != nil {"),
+    ("sizeof: pointer: the pointee is never counted", "break") + SZ + ("\t\t} else {\n\t\t\tsum = sizeof(v.Elem())\n", "\t\t} else {\n\t\t\tsum = 0\n"),
+    ("sizeof: map: the keys are forgotten", "break") + SZ + (MAPLOOP, "\t\t\ts := sizeof(iter.Value())\n\t\t\tsum += s\n"),
+    ("sizeof: map: the values are forgotten", "break") + SZ + (MAPLOOP, "\t\t\ts := sizeof(iter.Key())\n\t\t\tsum += s\n"),
+    ("sizeof: map: the key is counted twice instead of key + value", "break") + SZ + ("s = sizeof(iter.Value())", "s = sizeof(iter.Key())"),
+    ("sizeof: the slice header is added for arrays too", "break") + SZ + ("\tcase reflect.Slice:\n\t\tsum += slicesize", "\tcase reflect.Slice, reflect.Array:\n\t\tsum += slicesize"),
+    ("sizeof: interface: + pointersize instead of interfacesize", "break") + SZ + ("\t\tsum += interfacesize\n", "\t\tsum += pointersize\n"),
+    ("sizeof: slice loop bound i < n-1", "break") + SZ + ("\tcase reflect.Slice, reflect.Array:\n\t\tfor i, n := 0, v.Len(); i < n; i++ {", "\tcase reflect.Slice, reflect.Array:\n\t\tfor i, n := 0, v.Len(); i < n-1; i++ {"),
+    ("sizeof: string loop bound i <= n (index out of range)", "break") + SZ + ("\tcase reflect.String:\n\t\tfor i, n := 0, v.Len(); i < n; i++ {", "\tcase reflect.String:\n\t\tfor i, n := 0, v.Len(); i <= n; i++ {"),
+    ("sizeof: struct loop starts at 1", "break") + SZ + ("for i, n := 0, v.NumField(); i < n; i++ {", "for i, n := 1, v.NumField(); i < n; i++ {"),
+    ("sizeof: struct fields counted twice (sum += s + s)", "break") + SZ + ("\t\t\ts := sizeof(v.Field(i))\n\t\t\tsum += s\n", "\t\t\ts := sizeof(v.Field(i))\n\t\t\tsum += s + s\n"),
+    ("sizeof: an extra +8 at the end", "break") + SZ + ("\treturn sum\n}", "\treturn sum + 8\n}"),
+    ("sizeof: the zero Value costs 8", "break") + SZ + ("\tif !v.IsValid() {\n\t\treturn 0\n", "\tif !v.IsValid() {\n\t\treturn 8\n"),
+    ("sizeof: map header missing (case reflect.Map of the second switch dropped)", "break") + SZ + ("\tcase reflect.Map:\n\t\tsum += mapsize\n", ""),
+    ("sizeof: interface: the dynamic value is not counted", "break") + SZ + ("\tcase reflect.Interface:\n\t\tsum = sizeof(v.Elem())\n", "\tcase reflect.Interface:\n\t\tsum = 0\n"),
+    ("sizeof: scalar size + 1", "break") + SZ + ("reflect.Int, reflect.Uint, reflect.Uintptr:\n\t\tsum = int(v.Type().Size())", "reflect.Int, reflect.Uint, reflect.Uintptr:\n\t\tsum = int(v.Type().Size()) + 1"),
+    ("sizeof: slice elements: Index(i) -> Index(0)", "break") + SZ + ("\tcase reflect.Slice, reflect.Array:\n\t\tfor i, n := 0, v.Len(); i < n; i++ {\n\t\t\ts := sizeof(v.Index(i))", "\tcase reflect.Slice, reflect.Array:\n\t\tfor i, n := 0, v.Len(); i < n; i++ {\n\t\t\ts := sizeof(v.Index(0))"),
+    ("package: mapsize initialised with Sizeof(map) + 1 (the constant is read from the initialiser)", "break") + PKG + ("mapsize       = int(unsafe.Sizeof(map[int]int{}))", "mapsize       = int(unsafe.Sizeof(map[int]int{})) + 1"),
+    ("package: slicesize initialised with the size of a string header", "break") + PKG + ("slicesize     = int(unsafe.Sizeof([]int8{}))", "slicesize     = int(unsafe.Sizeof(\"\"))"),
+    ("Of: nil costs 1", "break") + OF + ("\tif data == nil {\n\t\treturn 0\n", "\tif data == nil {\n\t\treturn 1\n"),
+    ("Of: + 8 for the interface word", "break") + OF + ("return sizeof(reflect.ValueOf(data))", "return sizeof(reflect.ValueOf(data)) + 8"),
+    ("Of: the nil test inverted", "break") + OF + ("if data == nil {", "if data != nil {"),
+    # ---- rewrites that leave the SSA unchanged: the tie must survive -----------------------------------------
+    ("sizeof: comment in the pointer case", "survive") + SZ + ("\t\tif p == nil {\n", "\t\t// nil pointers cost only the header\n\t\tif p == nil {\n"),
+    ("sizeof: blank lines before the second switch", "survive") + SZ + ("\tswitch v.Kind() {\n\tcase reflect.Map:\n\t\tsum += mapsize", "\n\n\tswitch v.Kind() {\n\tcase reflect.Map:\n\t\tsum += mapsize"),
+    # ---- harmless rewrites that change the SSA: outcome reported --------------------------------------------
+    ("sizeof: pointer: the nil branch calls sizeof(v.Elem()) too (Elem of a nil pointer is the zero Value: 0)", "report") + SZ + ("\t\tif p == nil {\n\t\t\tsum = 0\n", "\t\tif p == nil {\n\t\t\tsum = sizeof(v.Elem())\n"),
+    ("sizeof: `s := sizeof(..); sum += s` -> `sum += sizeof(..)` in the struct loop", "report") + SZ + ("\t\t\ts := sizeof(v.Field(i))\n\t\t\tsum += s\n", "\t\t\tsum += sizeof(v.Field(i))\n"),
+    ("sizeof: scalar case `sum = ` -> `sum += ` (sum is 0 there)", "report") + SZ + ("reflect.Int, reflect.Uint, reflect.Uintptr:\n\t\tsum = int(", "reflect.Int, reflect.Uint, reflect.Uintptr:\n\t\tsum += int("),
+    ("sizeof: the cases of the second switch in another order", "report") + SZ + ("\tcase reflect.Map:\n\t\tsum += mapsize\n\tcase reflect.Slice:\n\t\tsum += slicesize\n", "\tcase reflect.Slice:\n\t\tsum += slicesize\n\tcase reflect.Map:\n\t\tsum += mapsize\n"),
+    ("sizeof: reflect.Bool merged into the scalar case", "report") + SZ + ("reflect.Int, reflect.Uint, reflect.Uintptr:\n\t\tsum = int(v.Type().Size())\n\tcase reflect.Bool:\n", "reflect.Int, reflect.Uint, reflect.Uintptr, reflect.Bool:\n"),
+    ("sizeof: the struct loop calls v.NumField() in every iteration", "report") + SZ + ("for i, n := 0, v.NumField(); i < n; i++ {", "for i := 0; i < v.NumField(); i++ {"),
+    ("sizeof: string: sum = v.Len() instead of the loop over the bytes", "report") + SZ + ("\tcase reflect.String:\n\t\tfor i, n := 0, v.Len(); i < n; i++ {\n\t\t\ts := sizeof(v.Index(i))\n\t\t\tsum += s\n\t\t}\n", "\tcase reflect.String:\n\t\tsum = v.Len()\n"),
+    ("sizeof: map loop written with a separate `iter := v.MapRange()` statement", "report") + SZ + ("\t\tfor iter := v.MapRange(); iter.Next(); {\n", "\t\titer := v.MapRange()\n\t\tfor iter.Next() {\n"),
+    ("Of: result through a local variable", "report") + OF + ("\treturn sizeof(reflect.ValueOf(data))", "\tn := sizeof(reflect.ValueOf(data))\n\treturn n"),
+    # ---- outside the supported subset: the translator must refuse -------------------------------------------
+    ("sizeof: the fix reverted: MapKeys + MapIndex (NaN keys: MapIndex needs key equality)", "unsupported") + SZ + ("\t\tfor iter := v.MapRange(); iter.Next(); {\n" + MAPLOOP + "\t\t}\n", "\t\tkeys := v.MapKeys()\n\t\tfor i := 0; i < len(keys); i++ {\n\t\t\tmapkey := keys[i]\n\t\t\ts := sizeof(mapkey)\n\t\t\tsum += s\n\t\t\ts = sizeof(v.MapIndex(mapkey))\n\t\t\tsum += s\n\t\t}\n"),
+    ("sizeof: a memo map keyed by pointer", "unsupported") + SZ + ("\t\tp := (*[]byte)(unsafe.Pointer(v.Pointer()))\n", "\t\tif memo[v.Pointer()] {\n\t\t\treturn 0\n\t\t}\n\t\tmemo[v.Pointer()] = true\n\t\tp := (*[]byte)(unsafe.Pointer(v.Pointer()))\n", "var memo = map[uintptr]bool{}\n"),
+    ("sizeof: NumField replaced by len(reflect.VisibleFields(v.Type())) (unknown external)", "unsupported") + SZ + ("for i, n := 0, v.NumField(); i < n; i++ {", "for i, n := 0, len(reflect.VisibleFields(v.Type())); i < n; i++ {"),
+    ("sizeof: the nil test through v.IsNil() (not in the vocabulary)", "unsupported") + SZ + ("\t\tp := (*[]byte)(unsafe.Pointer(v.Pointer()))\n\t\tif p == nil {", "\t\tif v.IsNil() {"),
+    ("sizeof: arithmetic on the result of Pointer()", "unsupported") + SZ + ("unsafe.Pointer(v.Pointer())", "unsafe.Pointer(v.Pointer() + uintptr(sum))"),
+    ("sizeof: the pointer from Pointer() is dereferenced", "unsupported") + SZ + ("\t\tif p == nil {\n\t\t\tsum = 0\n", "\t\tif p == nil || len(*p) == 12345 {\n\t\t\tsum = 0\n"),
+    ("sizeof: the map iterator is reset", "unsupported") + SZ + ("\t\t\ts := sizeof(iter.Key())\n", "\t\t\tif sum < 0 {\n\t\t\t\titer.Reset(v)\n\t\t\t}\n\t\t\ts := sizeof(iter.Key())\n"),
+    ("sizeof: the map iterator escapes into a package-level variable", "unsupported") + SZ + ("\t\tfor iter := v.MapRange(); iter.Next(); {\n", "\t\titer := v.MapRange()\n\t\tlastIter = iter\n\t\tfor iter.Next() {\n", "var lastIter *reflect.MapIter\n"),
+    ("package: mapsize is written outside package initialisation", "unsupported") + SZ + ("\tsum := 0\n", "\tsum := 0\n", "func SetMapSize(n int) { mapsize = n }\n"),
+    ("package: pointersize is initialised by a function call (not a constant)", "unsupported") + PKG + ("pointersize   = int(unsafe.Sizeof(&mapsize))", "pointersize   = ptrSize()", "func ptrSize() int { return int(unsafe.Sizeof(&mapsize)) }\n"),
+    ("sizeof: the Value is kept in a package-level variable", "unsupported") + SZ + ("\tsum := 0\n", "\tlastValue = v\n\tsum := 0\n", "var lastValue reflect.Value\n"),
+    ("sizeof: v.Type().Align() (not in the vocabulary)", "unsupported") + SZ + ("\tcase reflect.Bool:\n\t\tsum = int(v.Type().Size())", "\tcase reflect.Bool:\n\t\tsum = int(v.Type().Align())"),
+    ("sizeof: a defer / recover around the switch", "unsupported") + SZ + ("\tsum := 0\n", "\tsum := 0\n\tdefer func() { recover() }()\n"),
+    ("Of: the argument is inspected with a type switch", "unsupported") + OF + ("\treturn sizeof(reflect.ValueOf(data))", "\tif _, ok := data.(int); ok {\n\t\treturn 8\n\t}\n\treturn sizeof(reflect.ValueOf(data))"),
+    ("stat: formats with fmt.Sprintf outside a panic block (left refused)", "unsupported", "size.stat", "size/sizeof.go", "func stat(", None, None),
+    ("Stat: variadic options and strings.Join (left refused)", "unsupported", "size.Stat", "size/sizeof.go", "func Stat(", None, None),
+]
+
+
 GEN2_TARGETS = set(c[2] for c in CASES2)
 GEN4_TARGETS = set(c[2] for c in CASES4)
+GEN6_TARGETS = set(c[2] for c in CASES6)
 
 
 def gen_of(target):
-    return 2 if target in GEN2_TARGETS else 4 if target in GEN4_TARGETS else 3
+    return 2 if target in GEN2_TARGETS else 4 if target in GEN4_TARGETS else 6 if target in GEN6_TARGETS else 3
 
 
 def lean_name(target):
@@ -504,7 +571,8 @@ def lean_check(lean_dir, path):
 
 
 def run_case(args, scratch, idx, case):
-    name, expect, target, relfile, anchor, old, new = case
+    name, expect, target, relfile, anchor, old, new = case[:7]
+    append = case[7] if len(case) > 7 else ""
     lname = lean_name(target)
     d = os.path.join(scratch, "case%02d" % idx)
     repo = os.path.join(d, "repo")
@@ -513,8 +581,11 @@ def run_case(args, scratch, idx, case):
     os.makedirs(out)
     if old is not None:
         edit_in_func(os.path.join(repo, relfile), anchor, old, new)
+    if append:
+        open(os.path.join(repo, relfile), "a").write("\n" + append)
     t0 = time.time()
-    r = subprocess.run([args.bin, "-q", "-repo", repo, "-outdir", out, "-only", target],
+    extra6 = ["-extra6", "size.stat,size.Stat"] if gen_of(target) == 6 else []
+    r = subprocess.run([args.bin, "-q", "-repo", repo, "-outdir", out] + extra6 + ["-only", target],
                        capture_output=True, text=True, env=ENV)
     res = {"case": name, "expect": expect, "target": target, "ssa2lean_exit": r.returncode,
            "ssa2lean_seconds": round(time.time() - t0, 2)}
@@ -611,12 +682,50 @@ def difftest(args, scratch):
     return res
 
 
+def difftest6(args, scratch):
+    """Differential test of the reflect vocabulary GoSem6 and of the translation of size.Of / size.sizeof (no tie involved):
+    testdata/sizetree_main.go.txt runs size.Of on concrete Go values (every scalar kind, nil and non-nil pointers and
+    interfaces, maps incl. NaN keys, nested slices, a channel, a func field); the definitions regenerated from the scratch
+    export are EVALUATED by Lean on the corresponding value trees (testdata/sizetree_eval.lean.txt); -1 = panic / none."""
+    res = {"case": "reflect vocabulary: generated size_Of evaluated on value trees against size.Of on the Go values", "expect": "difftest",
+           "target": "size.Of"}
+    d = os.path.join(scratch, "difftest6")
+    repo, out, gomain = os.path.join(d, "repo"), os.path.join(d, "out"), os.path.join(d, "gomain")
+    shutil.copytree(args.base, repo, ignore=shutil.ignore_patterns(".git"))
+    os.makedirs(out)
+    os.makedirs(gomain)
+    td = os.path.join(HERE, "testdata")
+    r = subprocess.run([args.bin, "-q", "-repo", repo, "-outdir", out, "-only", "size.sizeof,size.Of"],
+                       capture_output=True, text=True, env=ENV)
+    if r.returncode != 0:
+        res.update(ok=False, outcome="UNEXPECTED: translator exit %d: %s" % (r.returncode, (r.stdout + r.stderr)[-300:]))
+        return res
+    body = "".join(IMPORT_RE.sub("", open(os.path.join(out, t + ".lean")).read()) for t in ("size_sizeof", "size_Of"))
+    lean_file = os.path.join(d, "Eval.lean")
+    open(lean_file, "w").write("import LowModel.GoSem\nimport LowModel.GoSem6\n" + body +
+                               open(os.path.join(td, "sizetree_eval.lean.txt")).read())
+    rl = subprocess.run(["lake", "env", "lean", lean_file], cwd=args.lean, capture_output=True, text=True, timeout=600)
+    shutil.copy(os.path.join(td, "sizetree_main.go.txt"), os.path.join(gomain, "main.go"))
+    open(os.path.join(gomain, "go.mod"), "w").write(
+        "module gochk\ngo 1.22\nrequire github.com/openacid/low v0.0.0\nreplace github.com/openacid/low => %s\n" % repo)
+    if os.path.exists(os.path.join(repo, "go.sum")):
+        shutil.copy(os.path.join(repo, "go.sum"), gomain)
+    rg = subprocess.run(["go", "run", "."], cwd=gomain, capture_output=True, text=True, env=ENV)
+    nums = lambda text: [re.findall(r"-?\d+", l) for l in text.strip().splitlines()]
+    lean_lines, go_lines = nums(rl.stdout), nums(rg.stdout)
+    ok = rl.returncode == 0 and rg.returncode == 0 and "error" not in rl.stdout and len(go_lines) >= 20 and lean_lines == go_lines
+    res.update(ok=ok, lines=len(go_lines),
+               outcome=("%d results agree" % len(go_lines)) if ok else
+               "UNEXPECTED: lean=%r go=%r %s" % (rl.stdout[-600:], rg.stdout[-600:], (rl.stderr + rg.stderr)[-300:]))
+    return res
+
+
 def main():
     ap = argparse.ArgumentParser()
     ap.add_argument("--repo", default="/repo")
     ap.add_argument("--lean", default="/verif/lean")
-    ap.add_argument("--bin", default=os.path.join(HERE, "bin", "ssa2lean4"))
-    ap.add_argument("--gen", default="4", help="4: the cases of ssa2lean4 (closures; default); 3: those of ssa2lean3; 2: those of ssa2lean2; all")
+    ap.add_argument("--bin", default=os.path.join(HERE, "bin", "ssa2lean6"))
+    ap.add_argument("--gen", default="6", help="6: the cases of ssa2lean6 (reflect, direct recursion; default); 4: the cases of ssa2lean4 (closures); 3: those of ssa2lean3; 2: those of ssa2lean2; all")
     ap.add_argument("--worktree", action="store_true", help="copy the working tree of --repo instead of exporting HEAD")
     ap.add_argument("--only", default="", help="run only the cases (and baselines) whose name or target contains this text")
     ap.add_argument("--json", default="")
@@ -628,10 +737,10 @@ def main():
 
     r = subprocess.run(["go", "build", "-o", args.bin, "."], cwd=HERE, env=ENV, capture_output=True, text=True)
     if r.returncode != 0:
-        raise SystemExit("selftest: cannot build ssa2lean4:\n" + r.stderr)
+        raise SystemExit("selftest: cannot build ssa2lean6:\n" + r.stderr)
 
     # the scratch ties import already-built modules: make sure they are built (through the project lock)
-    pool = {"4": CASES4, "3": CASES3, "2": CASES2, "all": CASES4 + CASES3 + CASES2}[args.gen]
+    pool = {"6": CASES6, "4": CASES4, "3": CASES3, "2": CASES2, "all": CASES6 + CASES4 + CASES3 + CASES2}[args.gen]
     all_cases = [c for c in pool if args.only in c[0] or args.only in c[2]]
     mods = set()
     for c in all_cases:
@@ -652,9 +761,10 @@ def main():
     for c in all_cases:
         if c[2] not in targets:
             targets.append(c[2])
-    cases = [("baseline " + t, "baseline", t, None, None, None, None) for t in targets] + all_cases
+    cases = [("baseline " + t, "baseline", t, None, None, None, None) for t in targets
+             if os.path.exists(os.path.join(args.lean, "LowProofs", "Tie%d" % gen_of(t), lean_name(t) + ".lean"))] + all_cases
 
-    scratch = tempfile.mkdtemp(prefix="ssa2lean4-selftest-", dir="/tmp")
+    scratch = tempfile.mkdtemp(prefix="ssa2lean6-selftest-", dir="/tmp")
     results = []
     try:
         # a clean copy of the repo: `git archive HEAD` (the working tree may be in use), or the tree as it is
@@ -673,6 +783,8 @@ def main():
                 results.append(f.result())
         if args.gen in ("4", "all") and (args.only == "" or args.only in "difftest"):
             results.append(difftest(args, scratch))
+        if args.gen in ("6", "all") and (args.only == "" or args.only in "difftest"):
+            results.append(difftest6(args, scratch))
     finally:
         if args.keep:
             print("scratch kept:", scratch)
@@ -701,7 +813,7 @@ def main():
               n("unsupported") + n("nobuild")))
     for r in results:
         if r["expect"] == "difftest":
-            print("closure-translation differential test: " + r["outcome"])
+            print("differential test (%s): %s" % (r["case"].split(":")[0], r["outcome"]))
     if args.json:
         json.dump(results, open(args.json, "w"), indent=1)
     sys.exit(1 if bad else 0)
